@@ -44,3 +44,45 @@ Proof.
     + repeat split; reflexivity.
 Qed.
 Print Assumptions created_is_attached.
+
+(* Nothing ever gets in front of a request that sits in a topic's mailbox: across any step (arrivals, drops, other
+   actors' turns) the requests ahead of it stay the same or lose their head by the topic's own dequeue; what arrives
+   goes behind it.  So a request at position p is taken after exactly p+1 dequeues of its topic, however many
+   requests keep arriving: bounded overtaking, which "bounded work between two environment events" alone does not
+   give under a load that never stops. *)
+Theorem no_overtaking_topic : forall cfg st l st' t tp pre r post,
+  step cfg st l = Some st' -> nth_error (topics st) t = Some tp ->
+  t_mbox tp = pre ++ r :: post ->
+  exists tp', nth_error (topics st') t = Some tp' /\
+    ((exists new, t_mbox tp' = pre ++ r :: post ++ new) \/
+     (l = LTDeq t /\ exists m pre', pre = m :: pre' /\ t_mbox tp' = pre' ++ r :: post) \/
+     (l = LTDeq t /\ pre = [] /\ t_mbox tp' = post)).
+Proof.
+  intros cfg st l st' t tp pre r post Hs Hn Hm.
+  destruct (@C16_effect_topic cfg st l st' t tp Hs Hn) as [tp' [Hn' [[new Hnew]|[Hl [m Hdeq]]]]].
+  - exists tp'. split; [exact Hn'|]. left. exists new. rewrite Hnew, Hm. rewrite <- app_assoc. reflexivity.
+  - exists tp'. split; [exact Hn'|]. rewrite Hm in Hdeq. destruct pre as [|p pre'].
+    + right. right. cbn in Hdeq. injection Hdeq as _ Hpost. auto.
+    + right. left. cbn in Hdeq. injection Hdeq as Hp Hrest. split; [exact Hl|]. exists p, pre'. split; [reflexivity|].
+      symmetry. exact Hrest.
+Qed.
+
+(* the same for a subscription's mailbox (which is also cleared when the subscription's actor exits) *)
+Theorem no_overtaking_sub : forall cfg st l st' s sb pre r post,
+  step cfg st l = Some st' -> nth_error (subs st) s = Some sb ->
+  s_mbox sb = pre ++ r :: post ->
+  exists sb', nth_error (subs st') s = Some sb' /\
+    ((exists new, s_mbox sb' = pre ++ r :: post ++ new) \/
+     (l = LSDeq s /\ exists m pre', pre = m :: pre' /\ s_mbox sb' = pre' ++ r :: post) \/
+     (l = LSDeq s /\ pre = [] /\ s_mbox sb' = post) \/
+     (l = LSFinish s /\ s_phase sb' = SExited /\ s_mbox sb' = [])).
+Proof.
+  intros cfg st l st' s sb pre r post Hs Hn Hm.
+  destruct (@C16_effect_sub cfg st l st' s sb Hs Hn) as [sb' [Hn' [[new Hnew]|[[Hl [m Hdeq]]|Hfin]]]].
+  - exists sb'. split; [exact Hn'|]. left. exists new. rewrite Hnew, Hm. rewrite <- app_assoc. reflexivity.
+  - exists sb'. split; [exact Hn'|]. rewrite Hm in Hdeq. destruct pre as [|p pre'].
+    + right. right. left. cbn in Hdeq. injection Hdeq as _ Hpost. auto.
+    + right. left. cbn in Hdeq. injection Hdeq as Hp Hrest. split; [exact Hl|]. exists p, pre'. split; [reflexivity|].
+      symmetry. exact Hrest.
+  - exists sb'. split; [exact Hn'|]. right. right. right. exact Hfin.
+Qed.
